@@ -40,6 +40,7 @@ pub const MIRRORS: &[(&[&str], &str, &str, &str)] = &[
     (&["C17"], "input.rs", "take_from", "Lexer.Input"),
     (&["C17"], "input.rs", "take_split", "Lexer.Input"),
     (&["C17", "C08"], "lexer/error.rs", "contextualize", "Lexer.Context.contextualize"),
+    (&["C17"], "lexer/error.rs", "from", "Lexer.Report.report (impl From<ErrorTree> for ReportData, and the other From impls of the file)"),
     (&["C17", "C08"], "lexer/util.rs", "until_next_unindented", "Lexer.Context.untilNextUnindented"),
     (&["C08"], "validator/linking/mod.rs", "link_with_type", "Link.Chase (the supertypes visited list)"),
     // values
